@@ -54,6 +54,9 @@ class RawX12File(object):
         self.ele_term = line[3]
         self.subele_term = line[-2]
         self.repetition_term = line[82] if self.icvn == '00501' else None
+        if line.split(self.seg_term)[0].split(self.ele_term)[0] != 'ISA':
+            err_str = 'ISA delimiters (%r, %r) conflict with the segment identifier' % (self.seg_term, self.ele_term)
+            raise pyx12.errors.X12Error(err_str)
         self.buffer = line
         self.buffer += self.fd.read(DEFAULT_BUFSIZE)
 
